@@ -641,27 +641,44 @@ def check_term(case, H):
         H.violation(term_signature(status, r, feat), case, r['detail'])
         kl.append('!term:' + status)
     if case.get('fresh') and r.get('text') is not None:
-        try:
-            ans = get_worker(thname).ask({'t': j, 'unicode': uni, 'highlight': hl, 'line_length': ll})
-        except (Timeout, RecursionError):
-            raise
-        except Exception as e:
-            H.inconc('fresh-worker-failed')
-            ans = None
-        if ans is not None:
+        req = {'t': j, 'unicode': uni, 'highlight': hl, 'line_length': ll}
+        deferred = getattr(H, 'c07_deferred', None)
+        if deferred is not None:
+            # exploration: the fresh-process prints of a whole shard are requested together (they run concurrently)
+            deferred.append((case, req, r['text'], status))
             kl.append('hist:compared-with-fresh-process')
-            if 'text' not in ans:
-                if status == 'ok':
-                    H.violation('term:history:fresh-process-fails-to-print', case, 'in-process text %r; fresh process: %s'
-                                % (r['text'], ans.get('err')))
-            elif ans['text'] != r['text']:
-                feat = history_feature(case, r['text'], ans['text'])
-                H.violation('term:history-dependent-text:%s' % feat, case,
-                            'after the prefix the term prints as %r; a fresh process prints %r' % (r['text'], ans['text']))
-                kl.append('!hist:text-differs')
+        else:
+            try:
+                ans = get_worker(thname).ask(req)
+            except (Timeout, RecursionError):
+                raise
+            except Exception as e:
+                H.inconc('fresh-worker-failed')
+                ans = None
+            if ans is not None:
+                kl.append('hist:compared-with-fresh-process')
+                if compare_with_fresh(case, r['text'], status, ans, H):
+                    kl.append('!hist:text-differs')
     key = 'term|%s|%s' % (thname, r.get('text') if r.get('text') is not None else harness.canon(j))
     H.case(case, nontrivial, kl, key=key)
     return r
+
+
+def compare_with_fresh(case, text, status, ans, H):
+    """Record a violation when the in-process text (after the prefix) is not what a fresh process prints."""
+    if 'text' not in ans:
+        if 'no answer' in str(ans.get('err')):
+            H.inconc('fresh-child-killed-or-timed-out')
+            return False
+        if status == 'ok':
+            H.violation('term:history:fresh-process-fails-to-print', case, 'in-process text %r; fresh process: %s' % (text, ans.get('err')))
+            return True
+        return False
+    if ans['text'] != text:
+        H.violation('term:history-dependent-text:%s' % history_feature(case, text, ans['text']), case,
+                    'after the prefix the term prints as %r; a fresh process prints %r' % (text, ans['text']))
+        return True
+    return False
 
 
 def history_feature(case, got, fresh):
@@ -1564,9 +1581,24 @@ def run_shard(desc, seed, tier, H):
     elif kind == 'item':
         harness.hyp_run(st.sampled_from(THEORIES).flatmap(item_strategy), body, desc['n'], seed)
     elif kind == 'hist':
+        th = desc['theory']
+        H.c07_deferred = []
         try:
-            harness.hyp_run(hist_strategy(desc['theory']), body, desc['n'], seed)
+            harness.hyp_run(hist_strategy(th), body, desc['n'], seed)
+            pending, H.c07_deferred = H.c07_deferred, None
+            if pending:
+                try:
+                    answers = get_worker(th).ask_many([p[1] for p in pending])
+                except Exception:
+                    answers = None
+                    for _ in pending:
+                        H.inconc('fresh-worker-failed')
+                if answers is not None:
+                    for (case, req, text, status), ans in zip(pending, answers):
+                        if compare_with_fresh(case, text, status, ans, H):
+                            H.classes['!hist:text-differs'] += 1
         finally:
+            H.c07_deferred = None
             _close_workers()
     else:
         raise ValueError(kind)
